@@ -75,6 +75,27 @@ def jsonable(x, depth=0):
     return repr(x)
 
 
+def abbreviate(x, max_list=4, max_str=300, depth=0):
+    """Evidence samples must show what a case looks like, not reproduce a 5,000-pipeline file:
+    long lists keep their first elements and say how many were dropped."""
+    if depth > 10:
+        return "..."
+    if isinstance(x, dict):
+        items = list(x.items())
+        out = {str(k): abbreviate(v, max_list, max_str, depth + 1) for k, v in items[:40]}
+        if len(items) > 40:
+            out["..."] = f"{len(items) - 40} more keys"
+        return out
+    if isinstance(x, (list, tuple)):
+        out = [abbreviate(v, max_list, max_str, depth + 1) for v in x[:max_list]]
+        if len(x) > max_list:
+            out.append(f"... {len(x) - max_list} more")
+        return out
+    if isinstance(x, str) and len(x) > max_str:
+        return x[:max_str] + f"... ({len(x)} chars)"
+    return x
+
+
 class Mon:
     """Collector handed to every case: counters, violations, samples, signatures."""
 
@@ -107,7 +128,12 @@ class Mon:
             if len(self.sigs) < MAX_SIGS:
                 self.sigs.add(case_hash(self.case))
             if self._sample is not None and len(self.samples) < MAX_SAMPLES:
-                self.samples.append({"case": jsonable(self.case), "observed": jsonable(self._sample)})
+                smp = {"case": jsonable(self.case), "observed": jsonable(self._sample)}
+                if len(json.dumps(smp, default=str)) > 6000:
+                    smp = abbreviate(smp)
+                    if len(json.dumps(smp, default=str)) > 12000:
+                        smp = abbreviate(smp, max_list=2, max_str=120)
+                self.samples.append(smp)
         self.case = None
 
     def subcase(self, case):
